@@ -63,7 +63,7 @@ def run(ctx):
     )
     ctx.assumptions = [
         "SQLite's integer arithmetic and BINARY collation (PostgreSQL not executable here)",
-        "time literals / timespan overlap are C11's and C14's subject; POINT/region overlap is sphgeom's and not modelled",
+        "timespan-versus-timespan overlap is C11's subject; POINT overlap is probed against sphgeom's own containment test (geometry is not modelled)",
     ]
     with core.Lock():
         # T-tie: SqlColumnVisitor.visit_in_range is translated from the working tree into Gen/InRangeSql.lean
@@ -136,6 +136,9 @@ def gen_pred(rng, depth):
         if k < 0.62:
             if CUR["bool_cols"] and rng.random() < 0.5:
                 return ("flag", rng.choice(CUR["bool_cols"]))
+            if CUR["time_cols"] and rng.random() < 0.3:
+                # an instant tested against the half-open timespan, also exactly at its begin and its (exclusive) end
+                return ("tin", T0_NS + rng.choice([0, 100, 150, 250, 300, 350, 450, 500, 650, 850, 1000, 1100, 1250]) * 10**6, rng.random() < 0.5)
             if CUR["time_cols"] and rng.random() < 0.5:
                 # times within one second of each other: sub-second resolution matters
                 return ("cmp", rng.choice(["<", "<=", ">", ">=", "=", "!="]), ("col", rng.choice(CUR["time_cols"])),
@@ -192,6 +195,9 @@ class Render:
             return f"{self.sc(e[2])} {'!=' if e[1] else '='} NULL"
         if k == "flag":
             return e[1]
+        if k == "tin":
+            lit = self.sc(("tlit", e[1]))
+            return f"{lit} OVERLAPS exposure.timespan" if e[2] else f"exposure.timespan OVERLAPS {lit}"
         if k == "in":
             parts = []
             for kind, v in e[3]:
@@ -221,6 +227,9 @@ def tokens(e):
         return ["lit", v(e[1])]
     if k == "flag":
         return ["flag", e[1]]
+    if k == "tin":
+        # begin <= t AND end > t, in the model's own connectives
+        return (["and", "cmp", "<=", "col", "exposure.timespan.begin", "lit", f"i:{e[1]}", "cmp", ">", "col", "exposure.timespan.end", "lit", f"i:{e[1]}"])
     if k == "neg":
         return ["neg"] + tokens(e[1])
     if k in ("add", "sub", "mul", "mod"):
@@ -294,6 +303,8 @@ def ev_p(e, row):
     if k == "flag":
         x = row[e[1]]
         return None if x is None else bool(x)
+    if k == "tin":
+        return row["exposure.timespan.begin"] <= e[1] < row["exposure.timespan.end"]
     if k == "isnull":
         if LEGACY["null"]:
             return None  # '= NULL' reaches the database as a comparison with NULL
@@ -409,6 +420,8 @@ def expressions(ctx, model_ok, tmp):
                                     ("not", ("in", False, ("col", "detector"), (("r", (9, 11, 1)), ("r", (5, 9, 1)), ("v", -2))))))),
               ("exposure", ("not", ("cmp", "=", ("col", "instrument"), ("lit", "I")))),
               ("exposure", ("not", ("flag", "exposure.can_see_sky"))),
+              ("exposure", ("tin", T0_NS + 250 * 10**6, False)),   # exactly the exclusive end of exposure 1
+              ("exposure", ("tin", T0_NS + 300 * 10**6, True)),    # exactly the begin of exposure 3
               ("exposure", ("or", ("cmp", "<", ("col", "exposure.timespan.begin"), ("tlit", T0_NS + 250 * 10**6)),
                             ("cmp", "<", ("col", "exposure.timespan.begin"), ("tlit", T0_NS + 850 * 10**6))))]
     n_expr = 900 if ctx.quick() else 20000
@@ -487,6 +500,7 @@ def expressions(ctx, model_ok, tmp):
                      f"selects {sorted(expect)}", key, {"kind": "expression", "where": s_leg, "bind": {k: v for k, v in rl.bind.items()}, "api": api, "target": tname})
                 break
         ctx.sample({"where": s_new, "selected": len(want)}, cap=8)
+    point_overlaps(ctx, b)
     ctx.extra["constant_predicates"] = constant
     ctx.extra["expressions"] = n_expr + len(corpus)
     if model_ok:
@@ -500,6 +514,50 @@ def expressions(ctx, model_ok, tmp):
                     ctx.broken.append(f"correspondence: `{line[:160]}` model={m} implementation={i}")
         ctx.extra["correspondence_lines"] = len(req)
         ctx.extra["correspondence_disagreements"] = nd
+
+
+def point_overlaps(ctx, b):
+    """`visit.region OVERLAPS POINT(ra, dec)`: exactly the visits whose region contains the point (sphgeom decides), whatever the
+    target dimension set is — also with the common skypix dimension in it — and never a visit with a NULL region."""
+    import lsst.sphgeom as sg
+
+    def viol(what, key, replay):
+        ctx.violations.append(core.Violation(what=what, key=key, replay=replay))
+
+    def poly(ra, dec, half):
+        return sg.ConvexPolygon([sg.UnitVector3d(sg.LonLat.fromDegrees(ra + dx, dec + dy))
+                                 for dx, dy in ((-half, -half), (half, -half), (half, half), (-half, half))])
+
+    rng = ctx.rng
+    regions = {1: poly(10.0, 10.0, 0.05), 2: poly(10.08, 10.0, 0.05), 3: poly(40.0, -20.0, 0.05), 4: None, 5: poly(10.0, 10.06, 0.03)}
+    for v, region in regions.items():
+        b.registry.insertDimensionData("visit", {"instrument": "I", "id": v, "name": f"v{v}", "physical_filter": "f", "day_obs": 20200101, "region": region})
+    points = [(10.0, 10.0), (10.04, 10.0), (10.07, 10.0), (10.1, 10.04), (10.2, 10.0), (40.0, -20.0), (10.0, 10.04), (10.0, 10.08), (9.94, 10.0)]
+    points += [(round(10.0 + rng.uniform(-0.12, 0.2), 3), round(10.0 + rng.uniform(-0.1, 0.12), 3)) for _ in range(12 if ctx.quick() else 300)]
+    common = b.dimensions.commonSkyPix.name
+    with b.query() as q:
+        for ra, dec in points:
+            vec = sg.UnitVector3d(sg.LonLat.fromDegrees(ra, dec))
+            want = sorted(v for v, r_ in regions.items() if r_ is not None and r_.contains(vec))
+            where = f"instrument = 'I' AND visit.region OVERLAPS POINT({ra}, {dec})"
+            for dims in (["visit"], ["visit", common], ["visit", "physical_filter"]):
+                ctx.evaluations += 1
+                ctx.count("point-overlap")
+                try:
+                    got = sorted({d["visit"] for d in q.data_ids(dims).where(where)})
+                except Exception as e:
+                    got = f"{type(e).__name__}: {str(e)[:80]}"
+                if got != want:
+                    viol(f"query over {dims} with where={where!r} selects visits {got}; the regions that contain the point are those of {want}",
+                         f"point:{dims}:{ra}:{dec}", {"kind": "point-overlap", "dims": dims, "where": where})
+            try:
+                got = sorted(r_.id for r_ in q.dimension_records("visit").where(where))
+            except Exception as e:
+                got = f"{type(e).__name__}: {str(e)[:80]}"
+            if got != want:
+                viol(f"dimension records of visit with where={where!r}: {got}, expected {want}", f"point-records:{ra}:{dec}", {"kind": "point-overlap", "where": where})
+            if want:
+                ctx.nontrivial.add(("point", ra, dec))
 
 
 def replay(ctx, content):
